@@ -29,6 +29,7 @@ FIXED = {  # subject prefix (without "fix: ") -> property
  "an explicit import that cannot be merged with an implicit import": "C01",
  "a merged interface is named for the highest version": "C03",
  "a used interface without an id is aliased": "C08",
+ "type exports of interface type are merged": "C09",
 }
 out = []
 log = subprocess.run(["git", "-C", "/repo", "log", "--reverse", "--format=%h%x00%s%x00%b%x01", BASE + "..HEAD"],
